@@ -555,4 +555,118 @@ theorem output_spec {α : Type} {g : Grid α} {v : Pos → α} (hg : Denotes g v
     (by simp [zeros, InBox])
   simpa [Grid.output] using this
 
+/-! ## interpolation -/
+
+theorem length_bitStrings (n : Nat) : (bitStrings n).length = 2 ^ n := by
+  induction n with
+  | zero => rfl
+  | succ n ih => simp [bitStrings, ih, Nat.pow_succ]; omega
+
+/-- the corner array of level `n` above the already chosen offsets `hi` -/
+def corners (fl : Pos) (n : Nat) (hi : Pos) : List Pos :=
+  (bitStrings n).map fun b => List.zipWith (· + ·) (b ++ hi) fl
+
+theorem corners_succ (fl : Pos) (n : Nat) (hi : Pos) :
+    corners fl (n + 1) hi = corners fl n (0 :: hi) ++ corners fl n (1 :: hi) := by
+  simp [corners, bitStrings, List.map_append, List.map_map, Function.comp_def, List.append_assoc]
+
+theorem length_corners (fl : Pos) (n : Nat) (hi : Pos) : (corners fl n hi).length = 2 ^ n := by
+  simp [corners, length_bitStrings]
+
+theorem interpRec_corners {α φ : Type} {g : Grid α} {v : Pos → α} (hg : Denotes g v) (ip : φ → α → α → α)
+    (fl : Pos) (fr : List φ) (frf : Nat → φ) :
+    ∀ (n : Nat) (hi : Pos) (A B : List Pos), (∀ k, k < n → fr[k]? = some (frf k)) →
+      (∀ b ∈ bitStrings n, InRange g.size (List.zipWith (· + ·) (b ++ hi) fl)) →
+      g.interpRec (A ++ corners fl n hi ++ B) ip fr n A.length = .ok (multilin v ip fl frf n hi) := by
+  intro n
+  induction n with
+  | zero =>
+    intro hi A B _ hin
+    have h0 := hin [] (by simp [bitStrings])
+    simp only [List.nil_append] at h0
+    simp only [Grid.interpRec, corners, bitStrings, List.map_cons, List.map_nil, List.nil_append, multilin]
+    rw [List.append_assoc, List.getElem?_append_right (Nat.le_refl _)]
+    simp only [Nat.sub_self, List.cons_append, List.getElem?_cons_zero]
+    exact get_of_denotes hg h0
+  | succ n ih =>
+    intro hi A B hfr hin
+    have hf : fr[n]? = some (frf n) := hfr n (by omega)
+    have hin0 : ∀ b ∈ bitStrings n, InRange g.size (List.zipWith (· + ·) (b ++ (0 :: hi)) fl) := by
+      intro b hb
+      have := hin (b ++ [0]) (by simp only [bitStrings, List.mem_append, List.mem_map]; exact Or.inl ⟨b, hb, rfl⟩)
+      simpa [List.append_assoc] using this
+    have hin1 : ∀ b ∈ bitStrings n, InRange g.size (List.zipWith (· + ·) (b ++ (1 :: hi)) fl) := by
+      intro b hb
+      have := hin (b ++ [1]) (by simp only [bitStrings, List.mem_append, List.mem_map]; exact Or.inr ⟨b, hb, rfl⟩)
+      simpa [List.append_assoc] using this
+    have ha := ih (0 :: hi) A (corners fl n (1 :: hi) ++ B) (fun k hk => hfr k (by omega)) hin0
+    have hb := ih (1 :: hi) (A ++ corners fl n (0 :: hi)) B (fun k hk => hfr k (by omega)) hin1
+    have e1 : A ++ corners fl (n + 1) hi ++ B = A ++ corners fl n (0 :: hi) ++ (corners fl n (1 :: hi) ++ B) := by
+      rw [corners_succ]; simp [List.append_assoc]
+    have e2 : A ++ corners fl (n + 1) hi ++ B = A ++ corners fl n (0 :: hi) ++ corners fl n (1 :: hi) ++ B := by
+      rw [corners_succ]; simp [List.append_assoc]
+    have e3 : (A ++ corners fl n (0 :: hi)).length = A.length + 2 ^ n := by
+      rw [List.length_append, length_corners]
+    rw [e3, ← e2] at hb
+    rw [← e1] at ha
+    simp only [Grid.interpRec, hf, multilin, ha, hb, bind, Except.bind]
+    rfl
+
+/-- offsets of zeros and ones on a position with `0 ≤ fl_i` and `fl_i + 1 < d_i` stay in range -/
+theorem corner_inRange (d fl b : Pos) (hfl : InRange (d.map (· - 1)) fl) (hb : ∀ x ∈ b, x = 0 ∨ x = 1)
+    (hl : b.length = d.length) : InRange d (List.zipWith (· + ·) b fl) := by
+  induction d generalizing fl b with
+  | nil =>
+    cases b with
+    | nil => cases fl <;> simp_all [InRange, InBox, zeros]
+    | cons _ _ => simp at hl
+  | cons e es ih =>
+    cases b with
+    | nil => simp at hl
+    | cons x xs =>
+      cases fl with
+      | nil => simp [InRange, InBox, zeros] at hfl
+      | cons f fs =>
+        simp only [InRange, zeros, List.map_cons, InBox, List.zipWith_cons_cons] at hfl ⊢
+        have hx := hb x (by simp)
+        refine ⟨by omega, by omega, ?_⟩
+        exact ih fs xs hfl.2.2 (fun y hy => hb y (by simp [hy])) (by simpa using hl)
+
+theorem bitStrings_spec (n : Nat) : ∀ b ∈ bitStrings n, b.length = n ∧ ∀ x ∈ b, x = 0 ∨ x = 1 := by
+  induction n with
+  | zero => intro b hb; simp [bitStrings] at hb; subst hb; simp
+  | succ n ih =>
+    intro b hb
+    simp only [bitStrings, List.mem_append, List.mem_map] at hb
+    rcases hb with ⟨c, hc, rfl⟩ | ⟨c, hc, rfl⟩
+    · have := ih c hc
+      refine ⟨by simp [this.1], ?_⟩
+      intro x hx
+      simp only [List.mem_append, List.mem_singleton] at hx
+      rcases hx with hx | hx
+      · exact this.2 x hx
+      · exact Or.inl hx
+    · have := ih c hc
+      refine ⟨by simp [this.1], ?_⟩
+      intro x hx
+      simp only [List.mem_append, List.mem_singleton] at hx
+      rcases hx with hx | hx
+      · exact this.2 x hx
+      · exact Or.inr hx
+
+theorem interpolate_eq {α φ : Type} {g : Grid α} {v : Pos → α} (hg : Denotes g v) (ip : φ → α → α → α)
+    (fl : Pos) (fr : List φ) (frf : Nat → φ) (hfr : ∀ k, k < g.size.length → fr[k]? = some (frf k))
+    (hfl : InRange (g.size.map (· - 1)) fl) :
+    g.interpolate fl fr ip = .ok (multilin v ip fl frf g.size.length []) := by
+  have h := interpRec_corners hg ip fl fr frf g.size.length [] [] [] hfr (by
+    intro b hb
+    have hs := bitStrings_spec _ b hb
+    rw [List.append_nil]
+    exact corner_inRange g.size fl b hfl hs.2 hs.1)
+  unfold Grid.interpolate
+  have e : (bitStrings g.size.length).map (fun b => List.zipWith (· + ·) b fl) = [] ++ corners fl g.size.length [] ++ [] := by
+    simp [corners]
+  rw [e]
+  exact h
+
 end Fcppt.C08
